@@ -119,7 +119,7 @@ def apply_config(spec, old, new):
     osamp, nsamp = list(old.get('sampling') or [1, 's', 0.1]), list(new.get('sampling') or [1, 's', 0.1])
     if ou != nu:
         spec.unit = nu
-    if osamp != nsamp:
+    if osamp != nsamp and hasattr(spec, 'set_sampling_period'):
         api('set_sampling_period', spec.set_sampling_period, nsamp[0], nsamp[1], nsamp[2])
 
 
@@ -148,6 +148,11 @@ def build(desc):
             dt_evaluate(spec, prior['times'], prior['data'])
         except (ApiCrash, NumericOverflow):
             pass                      # the earlier use may legitimately fail (bounds not multiples of that period, ...)
+    if prior.get('signals') is not None:
+        try:
+            ct_evaluate(spec, prior['signals'], prior.get('order'))
+        except (ApiCrash, NumericOverflow):
+            pass
     apply_config(spec, prior, desc)
     if desc.get('pastify'):
         api('pastify', spec.pastify)
